@@ -410,7 +410,7 @@ def relabel(y):
 def random_float_scenario(rng, kind="sup", metric="euclidean", n=None, nu=0, nq=4, lattice=False, positive=False, mode=None, dim=None, classes=None):
     """Float data scenario. lattice -> integer grid (many ties); positive -> strictly positive features."""
     np = _np()
-    n = n or rng.randrange(3, 13)
+    n = n or rng.choice([2, 2] + list(range(3, 13)) * 2)
     dim = dim or rng.randrange(1, 5)
     k = classes or rng.choice([2, 2, 2, 3, 4])
     k = min(k, n)
